@@ -34,6 +34,7 @@ SEQ_INDEX = re.compile(
     r"^<seq::slice::SeqSlice<[^<>]*> as std::ops::Index<(std::ops::(Range|RangeTo|RangeFrom|RangeFull|RangeInclusive|RangeToInclusive)(<usize>)?|usize)>>::index$")
 SEQ_LEN = re.compile(r"^seq::slice::SeqSlice::<[^<>]*>::len$")
 SEQ_EMPTY = re.compile(r"^seq::slice::SeqSlice::<[^<>]*>::is_empty$")
+SPLIT_AT = re.compile(r"^bitvec::slice::api::<impl bitvec::slice::BitSlice(<[^>]*>)?>::split_at$")
 BITLEN = re.compile(r"^bitvec::(slice|vec)::api::<impl bitvec::(slice::BitSlice|vec::BitVec)(<[^>]*>)?>::len$")
 BV_DEREF = re.compile(r"^bitvec::vec::ops::<impl std::ops::Deref(Mut)? for bitvec::vec::BitVec(<[^>]*>)?>::deref(_mut)?$")
 BAN_ASREF = re.compile(r"^<<S as kmer::sealed::KmerStorage>::BaN as std::convert::As(Mut|Ref)<bitvec::slice::BitSlice>>::as_(mut|ref)$")
@@ -159,6 +160,9 @@ class Norm:
             return ("cast", ck, a, fr, to)
         if k == "field":
             b = n(t[1])
+            if b[0] == "call" and SPLIT_AT.match(b[1]) and len(b[2]) == 2 and t[2] in (0, 1):
+                # bitvec model row: split_at(x, n) = (x[..n], x[n..])
+                return ("bslice", b[2][0], canon(I(0, "usize")), canon(b[2][1])) if t[2] == 0 else ("bslice", b[2][0], canon(b[2][1]), None)
             if is_bits_field(t):
                 if b[0] == "seqof":
                     return b[1]
